@@ -178,7 +178,7 @@ def composition(cname, psel, pstride):
     return fn
 
 
-QUICK = ['hcp', 'l12', 'rect2', 'honeycomb', 'bccoct']
+QUICK = ['hcp', 'l12', 'rect2', 'honeycomb', 'bccoct', 'diamond', 'tetra-polar-abx2']
 THOROUGH = ['sc', 'fcc', 'bcc', 'hcp', 'diamond', 'b2', 'l12', 'nbo', 'bccoct', 'hcpoct', 'square', 'rect2', 'tria',
             'honeycomb', 'rumpled', 'mono', 'afm-square', 'afm-bcc']
 
